@@ -52,6 +52,9 @@ def hooktype_consts(body, op):
 
 def check(ctx):
     prog = ctx.prog
+    W1 = ctx.rule("W1", "template variables: the hook data structs are serialised under the member names acmed.toml(5) documents, none conditional")
+    from .wire_shape import check_shapes
+    check_shapes(ctx, W1, ["acmed::hooks::PostOperationHookData", "acmed::hooks::ChallengeHookData", "acmed::hooks::FileStorageHookData", "acmed::storage::CertFileFormat"])
     R1 = ctx.rule("R1", "hooks::call: in slice order, filtered by type, one awaited call_single at a time, first error aborts")
     cb = prog.async_body(CALL)
     its = [c for c in cb.calls_to("core::slice::<impl [T]>::iter") if arg_origins(c, 0).has_leaf("upvar:1")]
@@ -117,9 +120,22 @@ def order_rules(ctx):
         for nm, want in sorted(EXPECT_OK.items()):
             ctx.require(R3, ht.get(nm) == ("Ok", want), "%s:%s" % (gb.file, gb.line), "hook name `%s` resolves to %s in declaration order, groups expanded in place (evaluated: %s)" % (nm, want, ht.get(nm)),
                         ["acmed::config::Config::do_get_hook", "resolved", nm])
+    from .hook_table import consumer_table
+    cons_eval = set()
+    for key in ("acmed::config::Certificate::get_hooks", "acmed::config::Account::get_hooks"):
+        ct_ = consumer_table(prog, key)
+        if ct_ is None:
+            continue
+        cons_eval.add(key)
+        kb = prog.must_body(key)
+        for names, got, want in ct_:
+            if want == "Err":
+                continue
+            ctx.require(R3, got == want, "%s:%s" % (kb.file, kb.line), "%s with hooks = %s resolves to %s (declaration order, groups expanded in place: %s)" % (key.rsplit("::", 2)[-2] + "::get_hooks", names, got, want),
+                        [key, "resolved", repr(names)])
     for key in (RES, "acmed::config::Certificate::get_hooks", "acmed::config::Account::get_hooks"):
         b = prog.must_body(key)
-        if evaluated(ht) and key == RES:
+        if (evaluated(ht) and key == RES) or key in cons_eval:
             continue
         sl = origins(b, {"l": 0, "p": []})
         # looking a hook / group DEFINITION up by name (`self.hook.iter().find(|h| h.name == name)`) is selection, not loss
